@@ -657,11 +657,19 @@ def run_property(mod, tier: str, seed: int, only_sub: Optional[str] = None, scal
 
     # Phase B
     violations = []
+    # Phase B is bounded as a whole: one badly broken tree can open dozens of buckets (a revert of the row-label fix opens
+    # 84 in C08).  Each bucket gets VERIF_SHRINK_S, all of them together VERIF_SHRINK_TOTAL_S; once that is used up the
+    # remaining buckets are reported with the smallest failing case seen in phase A (still a replayable violation).
+    t_shrink0 = time.time()
+    shrink_total = float(os.environ.get("VERIF_SHRINK_TOTAL_S", "600"))
     for bucket, rec in sorted(total.buckets.items()):
         sub = next(s for s in mod.SUBS if s.name == rec["sub"])
         n_ex = max(1, int(sub.examples.get(tier, 100) * scale))
         try:
-            case, msg = shrink_bucket(mod, sub, bucket, rec, tier, n_ex, budget_s=float(os.environ.get("VERIF_SHRINK_S", "90")))
+            if time.time() - t_shrink0 > shrink_total:
+                case, msg = rec["case"], rec["msg"]
+            else:
+                case, msg = shrink_bucket(mod, sub, bucket, rec, tier, n_ex, budget_s=float(os.environ.get("VERIF_SHRINK_S", "90")))
         except HarnessError as e:
             print(f"HARNESS-ERROR property={prop_id} shrink {bucket}: {e}")
             return 2
